@@ -695,6 +695,15 @@ impl<'a, 'ast> Visit<'ast> for Ctx<'a> {
                     let recv = self.src.slice(mc.receiver.span()).to_string();
                     let pat = self.src.slice(f.pat.span()).to_string();
                     let name = format!("{}_it", mc.method);
+                    if ctor == "@literal" {
+                        // the method's body is a struct literal: inline it with `self` := receiver (filled in by extract_fn)
+                        let (fs, _) = self.src.range(f.for_token.span());
+                        let (bo, _) = self.src.range(f.body.brace_token.span.open());
+                        self.add(fs, bo, format!("let mut {name} = /*@INLINE:{}:{}@*/; while let Some({pat}) = {name}.next() /*@LOOP{ord}@*/ ", mc.method, recv.replace(':', "\u{1}")), "E8b own-iterator loop (struct literal inlined)");
+                        self.inline_checks.push((mc.method.to_string(), ctor));
+                        self.visit_block(&f.body);
+                        return;
+                    }
                     let (fs, _) = self.src.range(f.for_token.span());
                     let (bo, _) = self.src.range(f.body.brace_token.span.open());
                     self.add(fs, bo, format!("let mut {name} = {ctor}({recv}); while let Some({pat}) = {name}.next() /*@LOOP{ord}@*/ "), "E8b own-iterator loop");
@@ -978,9 +987,28 @@ fn extract_fn(file: &syn::File, src: &Src, it: &Item) -> ItemOut {
         cx.seq += 1;
         cx.edits.push(Edit { start: p, end: p + from.len(), text: to.clone(), rule: format!("M manual: {why}"), seq: cx.seq });
     }
+    let mut literal_bodies: BTreeMap<String, String> = BTreeMap::new();
     for (m, ctor) in cx.inline_checks.clone() {
         // the method `m` of some impl in this file must have exactly the body `{ CTOR(self) }`
         let mut ok = false;
+        if ctor == "@literal" {
+            for item in &file.items {
+                if let syn::Item::Impl(im) = item {
+                    for ii in &im.items {
+                        if let syn::ImplItem::Fn(f) = ii {
+                            if f.sig.ident == m && f.sig.inputs.len() == 1 && f.block.stmts.len() == 1 {
+                                if let Some(syn::Stmt::Expr(syn::Expr::Struct(es), None)) = f.block.stmts.last() {
+                                    literal_bodies.insert(m.clone(), src.slice(es.span()).to_string());
+                                    ok = true;
+                                }
+                            }
+                        }
+                    }
+                }
+            }
+            if !ok { cx.errors.push(format!("E8b: side condition failed: method `{m}` has no body consisting of a single struct literal in {}", it.file)); }
+            continue;
+        }
         for item in &file.items {
             if let syn::Item::Impl(im) = item {
                 for ii in &im.items {
@@ -1010,6 +1038,31 @@ fn extract_fn(file: &syn::File, src: &Src, it: &Item) -> ItemOut {
     for e in &cx.edits {
         if e.rule.starts_with("inject") || e.rule.starts_with("for-loop ghost") { continue; }
         out.edits.push(EditOut { rule: e.rule.clone(), line: src.line_of(e.start), from: src.text[e.start..e.end].to_string(), to: e.text.clone() });
+    }
+    // fill in inlined struct literals (`self` := receiver, token-wise)
+    let mut body = body;
+    while let Some(p0) = body.find("/*@INLINE:") {
+        let p1 = body[p0..].find("@*/").map(|x| x + p0).unwrap_or(body.len());
+        let spec = body[p0 + 10..p1].to_string();
+        let mut parts = spec.splitn(2, ':');
+        let m = parts.next().unwrap_or("").to_string();
+        let recv = parts.next().unwrap_or("").replace('\u{1}', ":");
+        let lit = literal_bodies.get(&m).cloned().unwrap_or_default();
+        // replace the identifier `self` (not inside other identifiers) by the receiver
+        let mut outl = String::new();
+        let bytes: Vec<char> = lit.chars().collect();
+        let mut i = 0;
+        while i < bytes.len() {
+            let is_id = |c: char| c.is_alphanumeric() || c == '_';
+            if i + 4 <= bytes.len() && bytes[i..i + 4].iter().collect::<String>() == "self" && (i == 0 || !is_id(bytes[i - 1])) && (i + 4 == bytes.len() || !is_id(bytes[i + 4])) {
+                outl.push_str(&recv);
+                i += 4;
+            } else {
+                outl.push(bytes[i]);
+                i += 1;
+            }
+        }
+        body = format!("{}{}{}", &body[..p0], norm(&outl), &body[p1 + 3..]);
     }
     out.text = format!("{sigtxt}{body}");
     out.loops = cx.loops;
@@ -1110,10 +1163,16 @@ fn instantiate_macro(text: &str, name: &str, arg: &str) -> Result<String, String
     let m0 = rest.find("($").ok_or("E3: unsupported macro matcher")?;
     let m1 = rest[m0..].find(')').ok_or("E3: unsupported macro matcher")? + m0;
     let matcher = &rest[m0 + 1..m1];
-    let mut parts = matcher.split(':');
-    let var = parts.next().unwrap_or("").trim().to_string();
-    let kind = parts.next().unwrap_or("").trim();
-    if !var.starts_with('$') || kind != "ty" { return Err(format!("E3: unsupported macro matcher `{matcher}`")); }
+    let mut vars = vec![];
+    for piece in matcher.split(',') {
+        let mut parts = piece.split(':');
+        let var = parts.next().unwrap_or("").trim().to_string();
+        let kind = parts.next().unwrap_or("").trim();
+        if !var.starts_with('$') || kind != "ty" { return Err(format!("E3: unsupported macro matcher `{matcher}`")); }
+        vars.push(var);
+    }
+    let args: Vec<&str> = arg.split(';').collect();
+    if args.len() != vars.len() { return Err(format!("E3: macro `{name}` takes {} type parameters, {} given (separate with ;)", vars.len(), args.len())); }
     let arrow = rest[m1..].find("=>").ok_or("E3: no transcriber")? + m1;
     let open = rest[arrow..].find('{').ok_or("E3: no transcriber")? + arrow;
     let mut depth = 0i32;
@@ -1124,7 +1183,8 @@ fn instantiate_macro(text: &str, name: &str, arg: &str) -> Result<String, String
     let close = close.ok_or("E3: unbalanced transcriber")?;
     // preserve line numbers of the original file: pad with newlines up to the transcriber
     let prefix_lines = text[..p + open + 1].matches('\n').count();
-    let body = rest[open + 1..close].replace(&var, arg);
+    let mut body = rest[open + 1..close].to_string();
+    for (v, a) in vars.iter().zip(args.iter()) { body = body.replace(v.as_str(), a); }
     Ok(format!("{}{}", "\n".repeat(prefix_lines), body))
 }
 
